@@ -49,19 +49,22 @@ partial def jsJson (pfx : String) : JS → Option String
   | .ref n => some (jq (pfx ++ n))
   | .raw v => valJson v
 
-def closureFuel (ss : Schemas) : Nat := Schemas.objectCount ss + 2
+def closureFuel (ss : Schemas) : Nat := emitFuel ss
 
 /-- the objects `GenerateSchema` formats for schema `s`: its own, then round by round the queued
-    foreign ones (within the fuel) -/
-def laterObjs (ss : Schemas) (pkg : String) : Nat → Pending → List Obj
-  | 0, _ => []
-  | f + 1, pend =>
+    foreign ones whose key was not emitted before -/
+def laterObjs (ss : Schemas) (pkg : String) : Nat → Pending → List String → List Obj
+  | 0, _, _ => []
+  | f + 1, pend, em =>
     if pend.isEmpty then []
-    else pend.map (·.2) ++ laterObjs ss pkg f (runObjs ss pkg (pend.map (·.2)) ([], [])).2
+    else
+      let fresh := (pend.foldl (fun (acc : List (String × Obj) × List String) e =>
+        if acc.2.contains e.1 then acc else (acc.1 ++ [e], e.1 :: acc.2)) ([], em)).1
+      fresh.map (·.2) ++ laterObjs ss pkg f (runForeign ss pkg pend ([], [], em)).2.1 (runForeign ss pkg pend ([], [], em)).2.2
 
 /-- a Go panic while formatting one of them (nil payload of a Kind, `Args[0]` of an empty argument list) -/
 def anyPanics (ss : Schemas) (s : Schema) : Bool :=
-  (schemaObjs s ++ laterObjs ss s.pkg (Schemas.objectCount ss + 2) (firstRound ss s).2).any fun o => emitPanics o.ty
+  (schemaObjs s ++ laterObjs ss s.pkg (emitFuel ss) (firstRound ss s).2 []).any fun o => emitPanics o.ty
 
 def findSchema (ss : Schemas) (pkg : String) : Option Schema := ss.find? (fun s => s.pkg == pkg)
 
